@@ -43,7 +43,6 @@ Inductive pterm :=
     PTerm/Model.v [py_inst]: metavariable constraints are ignored, pending substitutions are applied
     with the generator's capture-unaware [apply_esubst]/[apply_ssubst]).  Whether the checker's
     Instantiate agrees is a side condition of the replay theorems (Lib/Embed.v), not of the schemas. *)
-Module PM := Pi2.PTerm.Model.
 
 (** The documented rules (docs/proof-language.md; BasicInterpreter): conclusion of a proof term
     relative to the module's declared assumptions [axs]; [None] = some rule does not apply. *)
@@ -57,7 +56,7 @@ Fixpoint static_conc (g : bool) (axs : list pat) (t : pterm) : option pat :=
       | Some (Imp p q), Some p' => if pat_eqb p p' then Some q else None
       | _, _ => None
       end
-  | Inst t delta => option_map (PM.py_inst delta) (static_conc g axs t)
+  | Inst t delta => option_map (Pi2.PTerm.Model.py_inst delta) (static_conc g axs t)
   | LoadAx a => if existsb (pat_eqb a) axs then Some a else None
   | Gen t x =>
       (* Generalization (allowed only when [g]): the generalised variable must be fresh in the consequent *)
@@ -142,7 +141,7 @@ Definition dynamic_inst (pf : thunk) (delta : list (N * pat)) : thunk :=
   | Some (t, c) =>
       match delta with
       | [] => pf
-      | _ => Some (Inst t delta, PM.py_inst' delta c)
+      | _ => Some (Inst t delta, Pi2.PTerm.Model.py_inst' delta c)
       end
   end.
 
